@@ -109,7 +109,9 @@ class Term:
             if a[0] == 'sym':
                 return a[1]
             if a[0] == 'call':
-                return '%s(%s)' % (a[1], ', '.join(Term(dict(t)).pretty() if False else _t(t).pretty() for t in a[2]))
+                return '%s(%s)' % (a[1], ', '.join(
+                    ('%s=%s' % (t[1], _t(t[2]).pretty())) if (isinstance(t, tuple) and t and t[0] == 'kw') else _t(t).pretty()
+                    for t in a[2]))
             if a[0] == 'pow':
                 return '(%s)**(%s)' % (_t(a[1]).pretty(), _t(a[2]).pretty())
             return repr(a)
@@ -288,12 +290,10 @@ def from_ast(e: ast.AST, env: Env) -> Term:
         raise Unknown('binary operator %s' % type(e.op).__name__)
     if isinstance(e, ast.Call):
         fs = norm(e.func)
-        if e.keywords and not all(k.arg for k in e.keywords):
-            raise Unknown('call with ** arguments: %s' % fs)
         if fs in TRANSPARENT or fs.split('.')[-1] == 'cast':
             return from_ast(e.args[-1], env)
         args = [from_ast(a, env) for a in e.args]
-        kw = {k.arg: from_ast(k.value, env) for k in e.keywords}
+        kw = {(k.arg or '**'): from_ast(k.value, env) for k in e.keywords}
         if isinstance(e.func, ast.Name) and e.func.id in env.fun_alias:
             fs = env.fun_alias[e.func.id]
         fname = CANON_FUNCS.get(fs)
